@@ -88,8 +88,13 @@ struct Case {
 
 fn small_delta(rng: &mut Rng) -> ReplicationDelta {
     let key = ["k", "", "key:é", "a\u{0}b"][rng.below(4) as usize].to_string();
-    let v = c07::random_value(rng).to_real();
-    ReplicationDelta::new(key, v, ReplicaId::new(rng.range(1, 3)))
+    // LWW values only: their bincode bytes do not depend on HashMap iteration order, so the run is
+    // byte-for-byte reproducible from the seed (C14 covers every CRDT kind)
+    let mut m = c07::random_value(rng);
+    while m.crdt.kind() != 0 || m.vc.as_ref().map(|v| v.len() > 1).unwrap_or(false) {
+        m = c07::random_value(rng);
+    }
+    ReplicationDelta::new(key, m.to_real(), ReplicaId::new(rng.range(1, 3)))
 }
 
 fn gen_case(rng: &mut Rng, out: &mut Out) -> Case {
@@ -109,7 +114,7 @@ fn gen_case(rng: &mut Rng, out: &mut Out) -> Case {
         } else {
             let len = *rng.pick(&[0usize, 1, 2, 15, 16, 17, 40]);
             let data: Vec<u8> = (0..len).map(|_| if rng.chance(1, 4) { 0 } else { rng.below(256) as u8 }).collect();
-            let checksum = crc32fast::hash(&data);
+            let checksum = crate::cfg::entry_checksum(ts, &data);
             WalEntry { data, timestamp: ts, checksum }
         };
         if !all_deltas && rng.chance(1, 25) {
@@ -263,7 +268,7 @@ fn run_case(c: &Case, rng: &mut Rng, out: &mut Out, thorough: bool, fixed: Optio
         // sanity oracle: an intact file reads back what was appended up to the first entry
         // whose stored checksum is wrong (bit-identical, in order)
         for (q, app) in &appended {
-            let good: Vec<&WalEntry> = app.iter().take_while(|e| e.validate()).collect();
+            let good: Vec<&WalEntry> = app.iter().take_while(|e| e.validate() && !(crate::cfg::CODE_WAL_FORMAT >= 2 && e.data.is_empty())).collect();
             let got = &intact[q];
             if !(good.len() == got.len() && good.iter().zip(got.iter()).all(|(a, b)| same(a, b))) {
                 out.violation("C10:intact:mismatch", "an undamaged file did not read back the appended entries", json!({"case": case_json, "file": q}));
@@ -493,6 +498,7 @@ pub fn run(a: &Args) {
     let mut out = Out::new(&a.out);
     let mut rng = Rng::new(a.seed);
     let thorough = a.tier == "thorough";
+    out.op(format!("V {}", crate::cfg::CODE_WAL_FORMAT), format!("format {}", crate::cfg::CODE_WAL_FORMAT));
     // differential test of the Lean CRC-32 against crc32fast
     for i in 0..40u64 {
         let len = if i < 4 { i } else { rng.below(80) };
@@ -516,7 +522,10 @@ pub fn run(a: &Args) {
         };
         // one entry per file (threshold 17): file 1 holds the entry stamped 5, file 2 the one stamped 7
         let c = Case { max: 17, entries: vec![mk("k", 5), mk("j", 7)], all_deltas: true };
+        let before = out.oracle.len();
         run_case(&c, &mut rng, &mut out, thorough, Some("corpus:timestamp-flip+zero-fill"));
+        // repaired defects (stamp 5 -> 261 flip, zero-filled tail, recover_entries_after on it): must pass
+        out.count(if out.oracle.len() == before { "corpus:timestamp-flip+zero-fill:pass" } else { "corpus:timestamp-flip+zero-fill:FAIL" });
     }
     // all stamp orders of 3 (thorough: also 4) entries x thresholds (one entry per file, two per
     // file, single file)
@@ -532,7 +541,7 @@ pub fn run(a: &Args) {
                         .iter()
                         .map(|t| {
                             let data = vec![*t as u8, 7];
-                            let checksum = crc32fast::hash(&data);
+                            let checksum = crate::cfg::entry_checksum(*t, &data);
                             WalEntry { data, timestamp: *t, checksum }
                         })
                         .collect();
